@@ -1602,6 +1602,8 @@ Definition caller_ok (s : st) (o : op) : Prop :=
   | _ => True
   end.
 
+Definition is_new (o : op) : bool := match o with ONew _ => true | _ => false end.
+
 Lemma Good_safe s s' : Good s → safe s s' → Good s'.
 Proof.
   intros (HI&Hl&L&HL) (HI'&_&(E&_)&HC). split; [done|split; [congruence|]].
@@ -1620,12 +1622,12 @@ Proof.
 Qed.
 
 Theorem run_op_good w o s r s' :
-  allowed o = true → (∀ levels, o ≠ ONew levels → Good s ∧ caller_ok s o) →
+  allowed o = true → (is_new o = false → Good s ∧ caller_ok s o) →
   run_op w o s = (r, s') → Good s'.
 Proof.
   intros Ha Hpre H.
   destruct o; try discriminate Ha; cbn [run_op] in H;
-    try (destruct (Hpre [] ltac:(done)) as [HG Hgd]; pose proof HG as (HI&Hl&L&HL));
+    try (destruct (Hpre eq_refl) as [HG Hgd]; pose proof HG as (HI&Hl&L&HL));
     try (apply bind_fst_state in H as [r0 H]).
   - (* ONew *)
     cbn [allowed] in Ha. apply bool_decide_eq_true in Ha as [Hn1 Hn2].
@@ -1681,7 +1683,7 @@ Qed.
 (** one call on manager [m] of a world *)
 Theorem step_good w m o :
   allowed o = true →
-  (∀ levels, o ≠ ONew levels → Good (world_get w m) ∧ caller_ok (world_get w m) o) →
+  (is_new o = false → Good (world_get w m) ∧ caller_ok (world_get w m) o) →
   Good (world_get (fst (step w m o)) m).
 Proof.
   intros Ha Hpre. unfold step, world_get in *.
@@ -1709,7 +1711,7 @@ Theorem run_inv_partial ops : ∀ w m,
 Proof.
   induction ops as [|o ops IH]; intros w m HG Hh; [done|].
   destruct Hh as (Ha&Hgd&Hh). cbn [run fold_left]. apply IH; [|done].
-  apply step_good; [done|]. intros _ _. by split.
+  apply step_good; [done|]. intros _. by split.
 Qed.
 
 (** from the empty world: the first call constructs the manager *)
@@ -1719,5 +1721,81 @@ Theorem run_inv_from_new levels ops m :
   Good (world_get (run world_empty m (ONew levels :: ops)) m).
 Proof.
   intros Ha Hh. cbn [run fold_left]. apply run_inv_partial; [|done].
-  apply step_good; [done|]. by intros l Hl.
+  apply step_good; [done|]. by intros [=].
+Qed.
+
+(** ** 14. A failing call ([Err e]) over the allowed alphabet: the state at
+    the raise point extends the state of the call *)
+Lemma bind_ret_err {A C} (m : MS A) (h : A → C) s e s' :
+  (x <- m ;; ret (h x)) s = (Err e, s') → m s = (Err e, s').
+Proof. unfold bind. by destruct (m s) as [[x|e0] s1]; intros [= <- <-]. Qed.
+
+Lemma tsafe_err {A} (m : MS A) s e s' :
+  nrf m → tsafe m → Good s → m s = (Err e, s') → safe s s' ∧ e ≠ ENeedsReordering.
+Proof.
+  intros Hn Ht (HI&Hl&_) H. split; [by apply (Ht s (Err e) s')|].
+  destruct (Hn s (Err e) s' Hl H) as [_ Hr]. by intros ->.
+Qed.
+
+Theorem run_op_err w o s e s' :
+  allowed o = true → is_new o = false → Good s → caller_ok s o →
+  run_op w o s = (Err e, s') →
+  safe s s' ∧ e ≠ ENeedsReordering.
+Proof.
+  intros Ha Hnew HG Hgd H. pose proof HG as (HI&Hl&L&HL).
+  assert (Hrefl : e ≠ ENeedsReordering → s' = s → safe s s' ∧ e ≠ ENeedsReordering).
+  { intros ? ->. split; [by apply safe_refl|done]. }
+  destruct o; try discriminate Ha; try discriminate Hnew; cbn [run_op] in H;
+    apply bind_ret_err in H.
+  - destruct (add_var_total s v l _ s' HI H) as (_&_&_&_&->&->); [|by apply Hrefl].
+    intros l0 -> Hv. by apply Hgd.
+  - by destruct (declare_total s vs _ s' HI H) as ([=]&_).
+  - by apply (tsafe_err _ s e s' (nrf_var v) (tsafe_var v)).
+  - by apply (tsafe_err _ s e s' (nrf_ite g u v) (tsafe_ite g u v)).
+  - by apply (tsafe_err _ s e s' (nrf_apply o u v w0) (tsafe_apply o u v w0)).
+  - destruct (incref_total s u _ s' HI H) as (_&_&_&Hv&Hn).
+    destruct (decide (valid s u)) as [Hu|Hu]; [by destruct (Hv Hu) as [[=] _]|].
+    destruct (Hn Hu) as [[= ->] ->]. by apply Hrefl.
+  - destruct (decref_total s u _ s' HI H) as (_&_&_&Hv&Hn).
+    destruct (decide (valid s u)) as [Hu|Hu]; [by destruct (Hv Hu) as [[=] _]|].
+    destruct (Hn Hu) as [[= ->] ->]. by apply Hrefl.
+  - destruct (nrf_ref u s _ s' Hl H) as [_ Hr].
+    apply Hrefl; [by intros ->|by apply (pure_ref u s _ s')].
+  - destruct (collect_garbage_total roots s L _ s' HI HL H)
+      as (_&_&_&_&_&_&[([=]&_)|([= ->]&->&_)]). by apply Hrefl.
+  - by destruct (configure_total s b _ s' HI H) as (_&_&_&[=]&_).
+  - by apply (tsafe_err _ s e s' (nrf_cofactor u byname values) (tsafe_cofactor u byname values)).
+  - by apply (tsafe_err _ s e s' (nrf_quantify u byname qvars fa) (tsafe_quantify u byname qvars fa)).
+  - by apply (tsafe_err _ s e s' (nrf_compose u sub) (tsafe_compose u sub)).
+  - by apply (tsafe_err _ s e s' (nrf_rename u d) (tsafe_rename u d)).
+  - by apply (tsafe_err _ s e s' (nrf_let d u) (tsafe_let d u)).
+  - by apply (tsafe_err _ s e s' (nrf_cube d) (tsafe_cube d)).
+  - destruct (nrf_support u s _ s' Hl H) as [_ Hr].
+    apply Hrefl; [by intros ->|by apply (pure_support u s _ s')].
+  - destruct (nrf_is_essential u v s _ s' Hl H) as [_ Hr].
+    apply Hrefl; [by intros ->|by apply (pure_is_essential u v s _ s')].
+Qed.
+
+(** ** 15. The counterexample: [find_or_add] with a level that is not above
+    the children creates an ill-ordered node and breaks the invariant *)
+Definition cx_s : st := snd (var 0 (snd (declare [0; 1] init))).
+Definition cx_s' : st := snd (find_or_add 1 2 1 cx_s).
+
+Lemma cx_s_Inv : Inv cx_s ∧ last_len cx_s = None.
+Proof.
+  unfold cx_s. destruct (declare [0; 1] init) as [r1 s1] eqn:E1.
+  destruct (declare_total init _ _ _ Inv_init E1) as (_&HI1&(El1&_)&_).
+  cbn [snd]. destruct (var 0 s1) as [r2 s2] eqn:E2. cbn [snd].
+  assert (Hl1 : last_len s1 = None) by (by rewrite El1).
+  destruct (tsafe_var 0 s1 r2 s2 HI1 Hl1 E2) as (HI2&_&(El2&_)&_).
+  split; [done|by rewrite El2].
+Qed.
+
+Example find_or_add_junk_refuted :
+  fst (find_or_add 1 2 1 cx_s) = Ok 3%Z ∧ ¬ Inv cx_s'.
+Proof.
+  split; [by vm_compute|]. intros HI.
+  assert (Hn : succ cx_s' !! 3%positive = Some (Triple 1 2 1)) by (by vm_compute).
+  destruct (inv_node _ HI _ _ Hn ltac:(done)) as (_&_&_&_&Hlo&_).
+  vm_compute in Hlo. lia.
 Qed.
